@@ -13,7 +13,7 @@ from fractions import Fraction
 
 from sexp import Sym
 
-from props._chunks_util import rand_comp, valid_dim, setup_dask, blocks_match_chunks
+from props._chunks_util import rand_comp, comps, valid_dim, setup_dask, blocks_match_chunks
 
 PROP = "C34"
 READY = True
@@ -414,25 +414,46 @@ def case_diag(ctx, inp):
     chunks = [tuple(c) for c in inp["chunks"]]
     shape = tuple(sum(c) for c in chunks)
     k = inp["k"]
-    x = (np.arange(int(np.prod(shape)), dtype="i8") * 5 % 17 + 1).reshape(shape)
-    d = da.from_array(x, chunks=tuple(chunks)) if inp.get("dask", True) else x
     op = inp.get("op", "diag")
+    isdask = inp.get("dask", True)
+    if op == "diagonal":
+        # distinct values: the position every output element was read from is recovered from its value
+        x = np.arange(int(np.prod(shape)), dtype="i8").reshape(shape)
+    else:
+        x = (np.arange(int(np.prod(shape)), dtype="i8") * 5 % 17 + 1).reshape(shape)
+    d = da.from_array(x, chunks=tuple(chunks)) if isdask else x
     if op == "diag":
         e = np.diag(x, k)
         r = da.diag(d, k)
     else:
         ax1, ax2 = inp["axes"]
-        e = np.diagonal(x, k, ax1, ax2)
-        r = da.diagonal(d, k, ax1, ax2)
+        try:
+            e = np.diagonal(x, k, ax1, ax2)
+        except Exception as ex:   # AxisError / ValueError (same axis)
+            e = None
+        try:
+            r = da.diagonal(d, k, ax1, ax2)
+        except Exception as ex:
+            if e is not None:
+                ctx.fail(f"diagonal raised {type(ex).__name__} although NumPy accepts the arguments", observed=str(ex)[:200])
+            else:
+                ctx.eq("diagonal_nd: the model raises too", ctx.lean(Sym("diagonal_nd"), [list(c) for c in chunks], k, ax1, ax2),
+                       [Sym("raised")])
+                ctx.branch("diagonal:raises")
+            return
+        if e is None:
+            ctx.fail("diagonal accepted arguments NumPy rejects", observed=[k, ax1, ax2])
+            return
     if not _same(ctx, f"{op}({len(shape)}-d, k={k})", r, e, exact=True):
         return
-    if len(shape) == 2 and inp.get("dask", True) and not (op == "diag" and k == 0 and chunks[0] == chunks[1]):
+    if len(shape) == 2 and isdask and not (op == "diag" and k == 0 and chunks[0] == chunks[1]):
         # function level: the walk along the k-diagonal through the blocks vs the Lean plan
         kk, rc, cc = k, list(chunks[0]), list(chunks[1])
         if op == "diagonal":
             a1, a2 = (a % 2 for a in inp["axes"])
             if a1 > a2:
                 kk = -k
+                rc, cc = rc, cc
         m = ctx.lean(Sym("diagonal"), rc, cc, kk)
         tasks = _tasks(r)
         segs = []
@@ -443,12 +464,66 @@ def case_diag(ctx, inp):
                 segs.append([int(ref[1]), int(ref[2]), int(t.args[1]), int(r.chunks[-1][i])])
         ctx.eq("diagonal: (block row, block column, local k, chunk length) per task", m, [Sym("ok"), segs])
         ctx.branch("diagonal:plan-diffed" + (":multi" if len(segs) > 1 else ""))
-    if op == "diag" and len(shape) == 1 and k == 0 and inp.get("dask", True):
-        m = ctx.lean(Sym("diag"), list(chunks[0]), [int(v) for v in x])
-        ctx.eq("diag: Lean diagDen vs computed", m, np.asarray(r.compute(scheduler="sync")).tolist())
-        ctx.branch("diag:1d-k0")
+    if op == "diagonal" and isdask:
+        # function level, n-d: normalised axes, output chunks, the whole task table (output block -> input block, local k)
+        nd = len(shape)
+        m = ctx.lean(Sym("diagonal_nd"), [list(c) for c in chunks], k, ax1, ax2)
+        if m == [Sym("raised")]:
+            ctx.disagree("diagonal_nd: the model raises, dask returned an array", m, list(r.shape))
+            return
+        _, a1, a2, oc, mt = m
+        ctx.eq("diagonal_nd: out_chunks", oc, [list(c) for c in r.chunks])
+        tasks = _tasks(r)
+        impl = []
+        for key, t in tasks.items():
+            if key[0] != r.name or t.func is not np.diagonal:
+                continue
+            ref = t.args[0].key
+            if (int(t.args[2]), int(t.args[3])) != (a1, a2):
+                ctx.disagree("diagonal_nd: np.diagonal is not called with the normalised axes", [a1, a2], [int(t.args[2]), int(t.args[3])])
+            impl.append([[int(v) for v in key[1:]], [int(v) for v in ref[1:]], int(t.args[1])])
+        ctx.eq("diagonal_nd: task table (output block, input block, local k)", sorted(mt), sorted(impl))
+        # the read map: which input position every output element holds, through the model's block plan
+        kk = -k if (ax1 % nd) > (ax2 % nd) else k
+        g = np.asarray(r.compute(scheduler="sync"))
+        if g.size:
+            idxs = [tuple(int(v) for v in ix) for ix in np.ndindex(*g.shape)]
+            step = max(1, len(idxs) // 5)
+            for ix in idxs[::step][:6] + [idxs[-1]]:
+                want = [int(v) for v in np.unravel_index(int(g[ix]), shape)]
+                ctx.eq("diagonal_read: input position read for an output position", ctx.lean(
+                    Sym("diagonal_read"), [list(c) for c in chunks], a1, a2, kk, list(ix[:-1]), ix[-1]), want)
+        free_multi = any(len(c) > 1 for i, c in enumerate(chunks) if i not in (a1, a2))
+        ctx.branch(f"diagonal_nd:{nd}d" + (":free-multiblock" if free_multi and nd > 2 else "") + (":swapped" if kk != k or (k == 0 and (ax1 % nd) > (ax2 % nd)) else "")
+                   + (":nonadjacent" if a2 - a1 > 1 else "") + (":empty" if not g.size else ""))
+    if op == "diag" and len(shape) == 1 and isdask:
+        cs = list(chunks[0])
+        if k == 0:
+            m = ctx.lean(Sym("diag"), cs, [int(v) for v in x])
+            ctx.eq("diag: Lean diagDen vs computed", m, np.asarray(r.compute(scheduler="sync")).tolist())
+            ctx.branch("diag:1d-k0")
+        else:
+            m = ctx.lean(Sym("diag_k"), cs, [int(v) for v in x], k)
+            ctx.eq("diag(v, k): Lean diagKDen (pad around the k=0 plan) vs computed", m, np.asarray(r.compute(scheduler="sync")).tolist())
+            # the embedded diag(v) keeps the input's chunks; the pad (split by da.pad as it likes) makes up the other |k|
+            n, tc = len(cs), tuple(cs)
+            rows, cols = r.chunks
+            ok = ((rows[:n] == tc and cols[len(cols) - n:] == tc) if k > 0 else (rows[len(rows) - n:] == tc and cols[:n] == tc))
+            if not ok or sum(rows) != sum(cs) + abs(k) or sum(cols) != sum(cs) + abs(k):
+                ctx.fail("diag(v, k): the embedded diag(v) does not keep the input's chunks", observed=r.chunks, expected=[cs, k])
+            ctx.branch("diag:1d:k" + (">0" if k > 0 else "<0"))
+    elif op == "diag" and len(shape) == 2 and isdask and k == 0 and chunks[0] == chunks[1]:
+        # 2-d -> 1-d fast path: block i of the result is np.diag(block (i, i))
+        tasks = _tasks(r)
+        for i in range(len(chunks[0])):
+            t = tasks[(r.name, i)]
+            if t.func is not np.diag or tuple(t.args[0].key[1:]) != (i, i):
+                ctx.disagree("diag (2-d, k=0, square chunks): task i is not np.diag(block (i, i))", [i, i], repr(t)[:120])
+        if r.chunks != (chunks[0],):
+            ctx.fail("diag (2-d fast path): chunks", observed=r.chunks, expected=(chunks[0],))
+        ctx.branch("diag:2d:fast-path")
     else:
-        ctx.branch(f"{op}:{len(shape)}d" + (":k" if k else ""))
+        ctx.branch(f"{op}:{len(shape)}d" + (":k" if k else "") + ("" if isdask else ":numpy-input"))
 
 
 def _spec_py(c):
@@ -834,10 +909,40 @@ def generate(ctx):
                 ax = [a - nd for a in ax]
             yield "diag", {"op": "diagonal", "chunks": [rand_comp(rng, s) for s in shape], "k": rng.randint(-5, 5), "axes": ax}
     # --- 2-d diagonal: the block walk vs the Lean plan -----------------------------------------------------------
-    for _ in range(ctx.n(80, 1000)):
+    for _ in range(ctx.n(60, 1000)):
         n, m = rng.randint(1, 9), rng.randint(1, 9)
         yield "diag", {"op": "diagonal", "chunks": [rand_comp(rng, n), rand_comp(rng, m)], "k": rng.randint(-n - 1, m + 1),
                        "axes": rng.choice([[0, 1], [1, 0], [-2, -1]])}
+    # every chunking of an n x m array, every offset, both axis orders (n, m <= 4 in thorough; a 1/5 sample of n, m <= 3 in quick)
+    top = 4 if ctx.thorough() else 3
+    for n in range(1, top + 1):
+        for m in range(1, top + 1):
+            for c0 in comps(n):
+                for c1 in comps(m):
+                    for k in range(-n - 1, m + 2):
+                        for axes in ([0, 1], [1, 0]):
+                            if ctx.thorough() or rng.random() < 0.2:
+                                yield "diag", {"op": "diagonal", "chunks": [list(c0), list(c1)], "k": k, "axes": axes}
+    # --- n-d diagonal: free axes with several blocks, non-adjacent / negative / swapped axes -----------------------
+    for _ in range(ctx.n(90, 1500)):
+        nd = rng.choice([3, 3, 3, 4, 4, 5])
+        shape = [rng.randint(1, 4) for _ in range(nd)]
+        ax = rng.sample(range(nd), 2)
+        for a in ax:   # the two diagonal axes are a bit longer
+            shape[a] = rng.randint(1, 6)
+        ax = [a - nd if rng.random() < 0.3 else a for a in ax]
+        ch = [rand_comp(rng, s_) for s_ in shape]
+        kk = rng.randint(-(shape[ax[0]] - 1), shape[ax[1]] - 1) if rng.random() < 0.85 else rng.randint(-shape[ax[0]] - 1, shape[ax[1]] + 1)
+        yield "diag", {"op": "diagonal", "chunks": ch, "k": kk, "axes": ax}
+    for _ in range(ctx.n(10, 100)):
+        # 2-d -> 1-d diag: equal row/column chunks (fast path for k = 0)
+        c0 = rand_comp(rng, rng.randint(1, 8))
+        yield "diag", {"chunks": [c0, c0], "k": rng.choice([0, 0, 0, 1, -1]), "dask": True}
+    for _ in range(ctx.n(8, 60)):
+        nd = rng.choice([2, 3])
+        shape = [rng.randint(1, 3) for _ in range(nd)]
+        bad = rng.choice([[0, 0], [1, -nd + 1], [0, -nd - 1], [-nd - 2, 1], [0, nd], [nd + 1, 0]])
+        yield "diag", {"op": "diagonal", "chunks": [rand_comp(rng, s_) for s_ in shape], "k": rng.randint(-1, 1), "axes": bad}
     # --- the rest: API level --------------------------------------------------------------------------------
     for _ in range(ctx.n(250, 3000)):
         op = rng.choice(["tri", "indices", "meshgrid", "fromfunction", "ones", "zeros", "full", "empty",
